@@ -5,16 +5,16 @@ const techLens = "static analysis (go/types + go/ssa): protocol-table lenses ove
 func propertyTable() []*Property {
 	return []*Property{
 		{ID: "C02", Technique: techLens,
-			Decides: "every byte-emitting site of the encoder emits the Thrift Binary width of its kind in big-endian order (T3, T4); type bytes in field/list/map headers come from the wire type WT, ids are high byte first, counts are the live length, every success return of the struct writer ends with STOP, a nil struct is a lone STOP, retained unknown bytes go before STOP (T9); the 11 list and 144 map fast-path registrations agree with the routine they select in element layout (size of every Go representation that can reach the kind, runtime hash class of native map casts), emitted widths, key-before-value association and count re-check (T5, T6); constants and tables equal the protocol table (T1, T2); pointer chases are conditioned on the owning descriptor's IsPointer (PTR-CHASE).",
+			Decides:    "every byte-emitting site of the encoder emits the Thrift Binary width of its kind in big-endian order (T3, T4); type bytes in field/list/map headers come from the wire type WT, ids are high byte first, counts are the live length, every success return of the struct writer ends with STOP, a nil struct is a lone STOP, retained unknown bytes go before STOP (T9); the 11 list and 144 map fast-path registrations agree with the routine they select in element layout (size of every Go representation that can reach the kind, runtime hash class of native map casts), emitted widths, key-before-value association and count re-check (T5, T6); constants and tables equal the protocol table (T1, T2); pointer chases are conditioned on the owning descriptor's IsPointer (PTR-CHASE).",
 			NotDecided: "that the bytes denote the value (which fields are selected by value, map contents), agreement with an independent implementation on concrete values.",
 			RuleIDs:    []string{"T1.wire-codes", "T2.tables", "T3.big-endian", "T4.writer-lens", "T5.list-registrations", "T6.map-registrations", "T9.wire-type-bytes", "PTR-CHASE"}},
 		{ID: "C05", Technique: "static analysis (go/ssa): linear-inequality cursor-bounds analysis with callee contracts and loop induction; wire-length taint with sanitiser dominance; loop classification",
-			Decides: "for all byte strings and all descriptors: every read of the input in the decode closure is in bounds on every path (E4: index, slice, BigEndian.UintN, unsafe.Slice/String, recorded unknown-field extents), every function returning (n, err) satisfies err == nil => 0 <= n <= len(b); every wire-derived length is non-negative and bounded by the remaining input (through class-I table entries at schema wire types) before it sizes an allocation, a view, a slice header or a loop (E5), so allocation is O(len(input)) per type; every guard edge that asserts malformed input returns a non-nil error; element type codes are compared with the schema before elements are read; every loop is counted over a sanitised length, a strictly advancing bounded cursor, or a range over a descriptor slice; recursion is bounded (E6); the tables have non-zero divisors (T2).",
+			Decides:    "for all byte strings and all descriptors: every read of the input in the decode closure is in bounds on every path (E4: index, slice, BigEndian.UintN, unsafe.Slice/String, recorded unknown-field extents), every function returning (n, err) satisfies err == nil => 0 <= n <= len(b); every wire-derived length is non-negative and bounded by the remaining input (through class-I table entries at schema wire types) before it sizes an allocation, a view, a slice header or a loop (E5), so allocation is O(len(input)) per type; every guard edge that asserts malformed input returns a non-nil error; element type codes are compared with the schema before elements are read; every loop is counted over a sanitised length, a strictly advancing bounded cursor, or a range over a descriptor slice; recursion is bounded (E6); the tables have non-zero divisors (T2).",
 			NotDecided: "'success exactly when well-formed' (semantic acceptance), faults caused by a wrong descriptor (C13/C01 layout rules), the dependency's skipper (thrift.Binary.Skip contract trusted: err == nil => 0 <= n <= len(arg)).",
 			Assumes:    []string{"thrift.Binary.Skip (gopkg v0.2.0) honours err == nil => 0 <= n <= len(b) and its own recursion bound (read in binary.go: every size is compared with the remaining buffer)"},
 			RuleIDs:    []string{"E4.cursor-bounds", "E5.length-sanitised", "E5.guards-error", "E5.loops", "E6.depth", "T2.tables"}},
 		{ID: "C15", Technique: "static analysis: termination measure on the recursive SCC of the decode call graph (VTA/CHA) with dominance of the depth guard",
-			Decides: "every input-driven recursive cycle of the decoder carries an int depth that strictly decreases by a constant on every intra-cycle call, is tested on entry of every member (== 0 only with unit decrements) with the exhausted edge returning the depth-limit exception and the test dominating every recursive call; the root starts at the constant maxDepthLimit; 48 x |SCC| x max decrement < maxDepthLimit <= 65536: depth <= maxDepthLimit frames on any input and 48 levels always fit.",
+			Decides:    "every input-driven recursive cycle of the decoder carries an int depth that strictly decreases by a constant on every intra-cycle call, is tested on entry of every member (== 0 only with unit decrements) with the exhausted edge returning the depth-limit exception and the test dominating every recursive call; the root starts at the constant maxDepthLimit; 48 x |SCC| x max decrement < maxDepthLimit <= 65536: depth <= maxDepthLimit frames on any input and 48 levels always fit.",
 			NotDecided: "the exact accepted/rejected nesting boundary; stack use per frame; the dependency's bound for skipped unknown fields (assumed: gopkg skipType limit 64).",
 			Assumes:    []string{"recursion inside thrift.Binary.Skip is bounded by its own depth limit (dependency, outside /repo)"},
 			RuleIDs:    []string{"E6.depth"}},
